@@ -30,7 +30,40 @@ pub struct C11 {
 
 /// A valid machine whose bincode encoding has exactly `target` bytes (the documented limit and its
 /// neighbours): many states with random parameters, then filler states of 16 / 19 / 22 / 27 bytes.
-fn machine_of_exact_size(r: &mut Xo, target: u64, compressible: bool) -> Option<Machine> {
+/// a state whose encoding is close to incompressible: five Normal distributions whose mean, start and
+/// max are random bit patterns (validation does not constrain them) and whose deviation is a random
+/// positive finite number
+fn dense_state(r: &mut Xo) -> maybenot::state::State {
+    use enum_map::enum_map;
+    use maybenot::action::Action;
+    use maybenot::counter::{Counter, Operation};
+    use maybenot::event::Event;
+    use maybenot::state::{State, Trans};
+    let mut d = |r: &mut Xo| loop {
+        let mean = f64::from_bits(r.next_u64());
+        let stdev = f64::from_bits(r.next_u64() & 0x7fef_ffff_ffff_ffff);
+        let dist = Dist::new(DistType::Normal { mean, stdev }, f64::from_bits(r.next_u64()), f64::from_bits(r.next_u64()));
+        if dist.validate().is_ok() {
+            return dist;
+        }
+    };
+    let p = f32::from_bits(0x3f00_0000 | (r.next_u64() as u32 & 0x007f_ffff)); // [0.5, 1)
+    let mut s = State::new(enum_map! { Event::NormalSent => vec![Trans(0, p)], _ => vec![] });
+    s.action = Some(Action::BlockOutgoing {
+        bypass: r.chance(1, 2),
+        replace: r.chance(1, 2),
+        timeout: d(r),
+        duration: d(r),
+        limit: Some(d(r)),
+    });
+    s.counter = (Some(Counter::new_dist(Operation::Increment, d(r))), Some(Counter::new_dist(Operation::Set, d(r))));
+    s
+}
+
+/// `mode`: 0 = 1200 random states then empty filler states, 1 = nothing but filler (compresses about
+/// 1000:1), 2 = dense states throughout (hardly compresses: the string is longer than the encoding)
+fn machine_of_exact_size(r: &mut Xo, target: u64, mode: u8) -> Option<Machine> {
+    let compressible = mode == 1;
     use enum_map::enum_map;
     use maybenot::action::{Action, Timer};
     use maybenot::event::Event;
@@ -39,6 +72,8 @@ fn machine_of_exact_size(r: &mut Xo, target: u64, compressible: bool) -> Option<
     // single empty state (then the whole machine is repetition and compresses about 1000:1)
     let mut m = if compressible {
         Machine::new(0, 0.0, 0, 0.0, vec![State::new(enum_map! { _ => vec![] }), State::new(enum_map! { _ => vec![] })]).ok()?
+    } else if mode == 2 {
+        Machine::new(0, 0.0, 0, 0.0, vec![State::new(enum_map! { _ => vec![] })]).ok()?
     } else {
         big_machine(r, 1200)
     };
@@ -54,6 +89,18 @@ fn machine_of_exact_size(r: &mut Xo, target: u64, compressible: bool) -> Option<
             _ => State::new(enum_map! { Event::NormalSent => vec![Trans(0, 0.5), Trans(1, 0.5)], _ => vec![] }),
         }
     };
+    if mode == 2 {
+        m = Machine::new(r.next_u64(), r.unit_f64(), r.next_u64(), r.unit_f64(), vec![dense_state(r)]).ok()?;
+        let one = bincode_size(&m);
+        while bincode_size(&m) + 66 * one + 4096 < target {
+            for _ in 0..64 {
+                m.states.push(dense_state(r));
+            }
+        }
+        while bincode_size(&m) + one + 700 < target {
+            m.states.push(dense_state(r));
+        }
+    }
     // bulk: 16-byte states until close to the target
     loop {
         let size = bincode_size(&m);
@@ -85,6 +132,9 @@ fn machine_of_exact_size(r: &mut Xo, target: u64, compressible: bool) -> Option<
             return if m.validate().is_ok() { Some(m) } else { None };
         }
         if size > target {
+            if std::env::var("VH_DEBUG").is_ok() {
+                eprintln!("exact-size: overshoot {size} > {target}");
+            }
             return None;
         }
         let diff = target - size;
@@ -562,15 +612,20 @@ impl Prop for C11 {
         if !self.boundary_done {
             self.boundary_done = true;
             // dealt over the shards: entry i is built by shard (i + 2) mod nshards
-            for (idx, (target, compressible)) in [
-                (MIB as u64, false),
-                (MIB as u64 - 1, false),
-                (MIB as u64 - 2, false),
-                (MIB as u64, true),
-                (MIB as u64 - 1, true),
-                (900_000, true),
-                (500_000, true),
-                (100_000, true),
+            for (idx, (target, mode)) in [
+                (MIB as u64, 0u8),
+                (MIB as u64 - 1, 0),
+                (MIB as u64 - 2, 0),
+                (MIB as u64, 1),
+                (MIB as u64 - 1, 1),
+                (900_000, 1),
+                (500_000, 1),
+                (100_000, 1),
+                // hardly compressible: the serialized string is longer than 1 MiB although the encoding fits
+                (MIB as u64, 2),
+                (MIB as u64 - 1, 2),
+                (1_000_000, 2),
+                (800_000, 2),
             ]
             .into_iter()
             .enumerate()
@@ -578,9 +633,16 @@ impl Prop for C11 {
                 if (idx as u64 + 2) % cx.nshards != cx.shard {
                     continue;
                 }
-                match machine_of_exact_size(&mut r, target, compressible) {
+                let compressible = mode == 1;
+                match machine_of_exact_size(&mut r, target, mode) {
                     Some(m) => {
                         out.evaluations += 1;
+                        if mode == 2 {
+                            out.bump("round_trips_of_hardly_compressible_machines");
+                            if m.serialize().len() > MIB {
+                                out.bump("round_trips_with_a_string_longer_than_1MiB");
+                            }
+                        }
                         if std::env::var("VH_DEBUG").is_ok() {
                             eprintln!("exact-size machine: target {target} compressible {compressible} states {} string {} B", m.states.len(), m.serialize().len());
                         }
@@ -593,7 +655,12 @@ impl Prop for C11 {
                             return;
                         }
                     }
-                    None => out.bump("size_limit_machines_not_constructed"),
+                    None => {
+                        if std::env::var("VH_DEBUG").is_ok() {
+                            eprintln!("exact-size machine: target {target} mode {mode} NOT constructed");
+                        }
+                        out.bump("size_limit_machines_not_constructed")
+                    }
                 }
             }
         }
